@@ -68,6 +68,16 @@ CHECKS = {
     text="Decides that the coarse solve factorises exactly the operator the residual applies: buildSolverMatrix of both strategies is interpreted from source on representative grids (down to the smallest admissible) and the assembled CSR matrix, read back as an exact table, equals the residual operator's table entry by entry (hence all four implementations agree, with C03); every CSR slot receives one column from all its writers, no column is duplicated, sizes agree; the constructor factorises the assembled matrix and solveInPlace uses that factorisation on the caller's vector. That sparse LU without pivoting is then accurate ('zero up to rounding') is numerical and is not decided.",
     note="Trusted: as C03. Not decided: the LU arithmetic (C16 is not applicable), fill-in behaviour.",
     ref="DESIGN.md section 4 / C04"),
+ "C06": dict(
+    level="proof", technique="static analysis: symbolic interpretation of the smoother matrix builders and of one sweep (line solves summarised, right-hand sides snapshotted) into exact tables; split completeness and Gauss-Seidel freshness by identity testing",
+    text="For both smoothers, parallel and sequential variant, on representative smoothing-level grids: the stored line matrices are read back after interpreting build*Matrices from source; one sweep is interpreted with every line solve replaced by its footprint and its right-hand side snapshotted as an exact linear form over rhs, previous-sweep and already-updated values. Per row this is the equation the sweep solves: A_sc row + A_ortho row must equal the residual operator's row (C03's table) with rhs weight one, Dirichlet rows identity with the boundary data, every neighbour read in the version the zebra colour order prescribes, every line solved exactly once, give == take == sequential. This implies the exact solution is a fixed point and the residual vanishes on a line right after its solve, for every input vector.",
+    note="Trusted: as C03 plus the line-solver footprint summary. Not decided: exactness of the tridiagonal/LU solves (C14's numerical half), energy-norm monotonicity.",
+    ref="DESIGN.md section 4 / C06"),
+ "C07": dict(
+    level="proof", technique="static analysis: symbolic interpretation of the extrapolated smoother's builders and of one sweep into exact tables; coarse-node invariance and split completeness by identity testing",
+    text="Same extraction as C06 for the extrapolated smoothers (tridiagonal, diagonal and inner CSR blocks). At every node of the next coarser grid the right-hand side handed to the solve is exactly the current value and the stored diagonal is the literal 1.0 with no other entry and no neighbour contribution, so the sweep returns x[c]/1.0 unchanged bit for bit; every fine-only row satisfies split completeness against the residual operator with all couplings to coarse nodes on the ortho side; neighbour versions follow the colour order; give == take == sequential.",
+    note="Trusted: as C06. Not decided: residual exactly zero on the last colour (arithmetic of the solves).",
+    ref="DESIGN.md section 4 / C07"),
 }
 NA = {
  "C02": "order of accuracy is a limit statement about numerical error under refinement; no clause is visible in the shape of the code (its code-shaped preconditions are checked under C03/C10/C19)",
